@@ -53,6 +53,7 @@ TCreate ==
   /\ HasEv("create") /\ e = 1 /\ KnownType /\ Case.kind # "offer"
   /\ Ev.h = 0 /\ Ev.type = In.type /\ Ev.role = Ent.role /\ Case.kind = Ent.role
   /\ In.var \in 0..(Ent.nvar - 1)
+  /\ In.wide \in (IF Ent.wide THEN {0, 1} ELSE {0})
   /\ In.ft \in (IF Ent.gen THEN {"f32", "f64"} ELSE {"f64"}) /\ Ev.ft = In.ft
   /\ Len(In.fmts) >= 1 /\ \A i \in 1..Len(In.fmts) : In.fmts[i] \in {"bincode", "json"}
   /\ hs' = << [armed |-> TRUE, exempt |-> FALSE] >>
@@ -63,7 +64,7 @@ TObs ==
   /\ HasEv("obs") /\ NH >= 1 /\ ~refused
   /\ Ev.h \in 0..(NH - 1)
   /\ Ev.h = NH - 1                                   \* only the newest value is observed
-  /\ Ev.cls \in {"f", "d", "b"} /\ Ev.st \in {"ok", "guard"}
+  /\ Ev.cls \in {"f", "d", "b", "l"} /\ Ev.st \in {"ok", "guard"}
   /\ LET x == [h |-> Ev.h, key |-> Ev.key, cls |-> Ev.cls, st |-> Ev.st, d |-> Ev.d, root |-> 0,
                armed |-> hs[Ev.h + 1].armed, exempt |-> hs[Ev.h + 1].exempt]
          o2 == o \cup {x}
